@@ -7,7 +7,7 @@ ids = [p["id"] for p in props]
 
 # id -> (technique, level text, level note, design ref)
 CHECKS = {
- "C01": ("proptest differential testing against a Vec/position-list model, 4 aliases x 6 element types x 3 construction paths, two build profiles",
+ "C01": ("proptest differential testing against a Vec/position-list model, 4 aliases x 6 element types x 4 construction paths (new, From<Vec>, collect from exact and from inexact-size-hint iterators), five builds (optimised, debug assertions + overflow checks, crate feature prefetch off, AddressSanitizer, target-cpu=native)",
          "Generated-input search: every answer of len/sigma/get/rank/rank_prefetch/select on shape-generated sequences (lengths around every block/superblock/sample period, alphabets around powers of 2 and 4, full-width values) is compared with an independent model, in an optimised build and in a build with debug assertions and overflow checks; process-killing failures are caught by the driver. No claim beyond the cases explored: generated lengths <= 400 000 (quick) / 1 310 000 (thorough), plus one enumerated 2^27-symbol input with a closed-form oracle (16-bit superblock-id truncation).",
          "the model in harness/src/model.rs; proptest's generators; symbols fit the element type by construction", "3/C01"),
  "C02": ("proptest differential testing with generated Huffman tie seeds (cfg(qwt_verif) hook) and code-shape-forcing frequency profiles",
@@ -81,7 +81,7 @@ m = {"version": 1, "setup_cmd": "./check --setup",
                "baseline_off_cmd": "cd /repo && cargo test --workspace --lib --bins --no-fail-fast --offline",
                "source_commits": hook_commits, "add_only": True},
      "engines": [{"name": "qv", "path": "/verif/harness", "serves_properties": sorted(CHECKS),
-                  "kind_free_text": "Rust crate (proptest 1.11 TestRunner with fixed seeds, reference models, adapters over every public type) driven by the python script /verif/check (builds fast/checked/noprefetch profiles, shards, watchdog, crash isolation, evidence)"},
+                  "kind_free_text": "Rust crate (proptest 1.11 TestRunner with fixed seeds, reference models, adapters over every public type) driven by the python script /verif/check (builds fast/checked/noprefetch/asan/native profiles, shards, watchdog, crash isolation, evidence)"},
                  {"name": "fuzz", "path": "/verif/harness/fuzz", "serves_properties": ["C01", "C02", "C03", "C04", "C05", "C06", "C07", "C08", "C09", "C10", "C12"],
                   "kind_free_text": "cargo-fuzz / libFuzzer targets (ASan, with and without debug assertions) that decode bytes into the properties' own cases and run the same oracles; thorough tier only"}],
      "checks": [entry(p) for p in ids if p in CHECKS],
